@@ -2,6 +2,7 @@ package main
 
 import (
 	"encoding/json"
+	"os/exec"
 	"flag"
 	"fmt"
 	"os"
@@ -26,8 +27,10 @@ type KnownFinding struct {
 	Region   string `json:"region"`
 	What     string `json:"what"`
 	Witness  string `json:"witness,omitempty"`
-	Kind     string `json:"kind,omitempty"` // "finding" (default) or "fixed"
+	Kind     string `json:"kind,omitempty"` // "finding" (default), "fixed", or "demonstrated" (not tied to an obligation)
 	Commit   string `json:"commit,omitempty"`
+	Demo     string `json:"demo,omitempty"`    // demonstrated findings: test file under /verif/findings that fails on the real code
+	Package  string `json:"package,omitempty"` // ... and the package directory (relative to the repository) it runs in
 }
 
 type KnownFile struct {
@@ -455,6 +458,19 @@ func report(prop, tier, repo, verif string, seed int, out *checkOutcome, partial
 			}
 		}
 	}
+	// findings demonstrated against the real code that no obligation of this property can express (so the check
+	// cannot re-detect them): listed on every run; the thorough tier re-runs the demonstration
+	for _, k := range known.Findings {
+		if k.Property != prop || k.Kind != "demonstrated" {
+			continue
+		}
+		fmt.Printf("KNOWN-FINDING: property=%s %s\n", prop, k.What)
+		if tier == "thorough" && k.Demo != "" {
+			if stillFails, out := runDemo(repo, verif, k.Package, k.Demo); !stillFails {
+				fmt.Printf("NOTE: the demonstration of that finding (%s) no longer fails on this tree: %s\n", k.Demo, firstLines(out, 2))
+			}
+		}
+	}
 	translationFailures := []string{}
 	for _, fr := range out.funcs {
 		if fr.Missing {
@@ -630,4 +646,42 @@ func writeEvidence(prop, tier, verif string, seed int, out *checkOutcome, perObl
 	os.MkdirAll(filepath.Join(verif, "evidence"), 0o755)
 	b, _ := json.MarshalIndent(ev, "", " ")
 	os.WriteFile(filepath.Join(verif, "evidence", prop+".json"), append(b, '\n'), 0o644)
+}
+
+// runDemo runs a demonstration test (a *_test.go kept under /verif/findings) inside its package of the
+// repository through an overlay that hides the package's own tests. It reports whether the test still fails.
+func runDemo(repo, verif, pkgDir, demo string) (bool, string) {
+	dir := filepath.Join(repo, pkgDir)
+	tmp, err := os.MkdirTemp("/var/tmp", "govc-demo")
+	if err != nil {
+		return true, err.Error()
+	}
+	defer os.RemoveAll(tmp)
+	empty := filepath.Join(tmp, "empty_test.go")
+	pkgName := filepath.Base(pkgDir)
+	if b, err := os.ReadFile(filepath.Join(verif, demo)); err == nil {
+		for _, ln := range strings.Split(string(b), "\n") {
+			if strings.HasPrefix(ln, "package ") {
+				pkgName = strings.TrimSpace(strings.TrimPrefix(ln, "package "))
+				break
+			}
+		}
+	}
+	os.WriteFile(empty, []byte("package "+pkgName+"\n"), 0o644)
+	rep := map[string]string{filepath.Join(dir, "zz_verif_demo_test.go"): filepath.Join(verif, demo)}
+	if ents, err := os.ReadDir(dir); err == nil {
+		for _, en := range ents {
+			if strings.HasSuffix(en.Name(), "_test.go") {
+				rep[filepath.Join(dir, en.Name())] = empty
+			}
+		}
+	}
+	ov, _ := json.Marshal(map[string]any{"Replace": rep})
+	ovf := filepath.Join(tmp, "ov.json")
+	os.WriteFile(ovf, ov, 0o644)
+	cmd := exec.Command("go", "test", "-overlay", ovf, "-vet=off", "-count=1", "-timeout", "120s", "./"+pkgDir+"/")
+	cmd.Dir = repo
+	cmd.Env = append(os.Environ(), "GOFLAGS=-mod=mod", "GOPROXY=off", "GOSUMDB=off", "GOTOOLCHAIN=local")
+	out, err := cmd.CombinedOutput()
+	return err != nil, string(out)
 }
